@@ -37,6 +37,7 @@ func runC16(c *Ctx) {
 		return
 	}
 	ob.Hold("found")
+	meekRdBufInvariant(c, p, "R7")
 	for _, f := range []*ssa.Function{iow, rt, rd, wr} {
 		c.Touch(p.FuncKey(f))
 	}
